@@ -136,7 +136,7 @@ def inject(dest, with_kani=True, with_rt=True, map_subst=True):
         add = ""
         kf = os.path.join(src, "verif_kani", "child_%s.rs" % stem)
         if with_kani and os.path.exists(kf):
-            add += '\n#[cfg(kani)]\n#[path = "%s"]\nmod verif_kani_child;\n' % kf
+            add += '\n#[cfg(kani)]\n#[path = "%s"]\npub(crate) mod verif_kani_child;\n' % kf
         rf = os.path.join(src, "verif_rt", "child_%s.rs" % stem)
         if with_rt and os.path.exists(rf):
             add += '\n#[cfg(ipt_verif_rt)]\n#[path = "%s"]\npub(crate) mod verif_rt_child;\n' % rf
